@@ -131,4 +131,5 @@ def model_stats(case, outs):
 def chunks(tier, seed):
     import itertools
     return ec.chunks_by_weight(itertools.chain(ec.gen_kw_cases(tier, seed),
+                                               ec.gen_scalar_collector_cases(tier, seed),
                                                ec.gen_cases(tier, seed, with_collectors=True)))
